@@ -347,6 +347,9 @@ func (c14) Exec(h []Ev) []Ev {
 						ex = append(ex, []int{q, v})
 					}
 					e["exists_"+suffix] = ex
+					pg := []int{}
+					pg = append(pg, pmt.Pids()...)
+					e["pids_again_"+suffix] = pg
 				}
 				if GBool(e["pre"]) {
 					query("before")
